@@ -1147,6 +1147,18 @@ Theorem C13_rekey_to_unvalidated_exit_ends_a_path :
     exists p, GoodPath f (validated_in_block r Leaves.checks_rekey_to None) p /\ last p 0 = b.
 Proof. exact unvalidated_leaf_has_unvalidated_path_rekey. Qed.
 
+(* the hypothesis "no callsub / retsub" cannot simply be dropped for rekey-to either (the D4 shape with the rekey check in
+   the returning branch: GroupSem5.RekeySubRefuted) *)
+Theorem C13_single_contract_verdict_equal_rekey_to_subroutine_refuted :
+  ~ (forall funcs dtype vtypes t k p tl r fuelr fuel ps,
+       Cfg.parse_teal p = Parse.Ok tl -> struct_ok tl -> graph_wf (whole_function tl) = true ->
+       single_contract t k -> nth_error funcs k = Some (whole_function tl, r) -> relative_accessors [t] t = [] ->
+       eligible dtype vtypes t -> g_abs t = None ->
+       run_all (whole_function tl) fuelr = Done r ->
+       run_detector (whole_function tl) r fuel "rekey-to" Leaves.checks_rekey_to = Done ps ->
+       (txn_vulnerable funcs Leaves.checks_rekey_to dtype vtypes [t] t = true <-> ps <> [])).
+Proof. exact single_group_eq_contract_rekey_subroutine_refuted. Qed.
+
 Print Assumptions C13_address_domain_has_no_prime_point.
 Print Assumptions C13_address_solver_preserves_well_formedness.
 Print Assumptions C13_rekey_to_values_well_formed.
@@ -1154,3 +1166,4 @@ Print Assumptions C13_address_any_flag_exact.
 Print Assumptions C13_single_contract_verdict_equal_rekey_to.
 Print Assumptions C13_single_contract_verdict_equal_rekey_to_parsed.
 Print Assumptions C13_rekey_to_unvalidated_exit_ends_a_path.
+Print Assumptions C13_single_contract_verdict_equal_rekey_to_subroutine_refuted.
